@@ -71,6 +71,7 @@ class Prov:
         self._defs = {}
         self._closure_sites = None
         self.through_params = False
+        self.stop_tags = set()
 
     # ------------------------------------------------------------------ definitions index
     def defs(self, f):
@@ -388,17 +389,18 @@ class Prov:
             return self._phi([self.resolve_env(x) for x in t[1]])
         return t
 
-    def root(self, t, depth=48, through_params=False):
+    def root(self, t, depth=48, through_params=False, stop_tags=()):
         """Peel projections and transparent calls.  Returns a list of (root, path) alternatives
         (several for phi).  path is a tuple of steps from the root outwards.  With through_params,
         a parameter is followed into the callers' arguments (context-insensitively)."""
         out = []
-        old = self.through_params
+        old = (self.through_params, self.stop_tags)
         self.through_params = through_params
+        self.stop_tags = set(stop_tags)
         try:
             self._root(t, (), depth, out)
         finally:
-            self.through_params = old
+            self.through_params, self.stop_tags = old
         res = []
         for x in out:
             if x not in res:
@@ -437,6 +439,10 @@ class Prov:
                         break
                 if tag is None and (name.endswith('::project') or name.endswith('::project_ref')):
                     tag = 'project'
+                if tag in self.stop_tags:
+                    tag = None
+                    out.append((t, path))
+                    return
             if tag == 'try':
                 args = self.args_of(t)
                 if args and len(path) >= 2 and path[0][0] == 'v' and path[1] == ('f', 0):
